@@ -15,10 +15,16 @@ def run(tier):
     return deductive.verify_module('gmquery', nproc=1) + normal_ded.reports(('C02',)) + \
         [deductive.verify_function(rel, q, c, hooks=N.DataVectorHooks(), module_env={}),
          deductive.verify_function(rel2, q2, c2, hooks=N.BPHooks(), module_env={'Z_calibrated': N.E.Num(N.z3.Real('Z_calibrated'))})] + \
-        C13.returns_fresh_reports(FRESH) + _ve_step()
+        C13.returns_fresh_reports(FRESH) + _ve_step() + _bulk()
 
 
 def _ve_step():
     from ..contracts import exactmsg as XM
     return [deductive.verify_function(rel, q, c, hooks=XM.hooks(sites), prefix='%s::%s[elimination step]' % (rel, q))
             for rel, q, c, sites, tag in XM.ITEMS if tag == 'C02']
+
+
+def _bulk():
+    """bulk (calculate_many_marginals) and Kronecker-product (krondot) query paths, value-level equations (pv/contracts/bulk.py)"""
+    from ..contracts import bulk as BK
+    return [deductive.verify_function(rel, q, c, hooks=BK.hooks(sites), prefix='%s::%s[query equations]' % (rel, q)) for rel, q, c, sites in BK.ITEMS]
